@@ -51,7 +51,7 @@ Fixpoint has_prefix (p s : str) : bool :=
   end.
 
 (* strings.TrimPrefix *)
-Fixpoint trim_prefix (p s : str) : str :=
+Definition trim_prefix (p s : str) : str :=
   if has_prefix p s then skipn (length p) s else s.
 
 Definition dash : N := 45.
